@@ -27,8 +27,10 @@ FloatClasses ==
   {[op |-> "RoundTrip", e |-> e, delta |-> dl, neg |-> n] : e \in Exps, dl \in {-1, 0, 1}, n \in BOOLEAN}      \* +-(2^e + delta) units
   \cup {[op |-> "FromSeconds", e |-> e, delta |-> dl, neg |-> n] : e \in -40..70, dl \in {-1, 0, 1}, n \in BOOLEAN} \* +-2^e s, one ulp around
   \cup {[op |-> "FromSeconds", e |-> e, delta |-> 0, neg |-> n] : e \in {-1074, -1022, -300, 300, 1023}, n \in BOOLEAN}
-  \cup {[op |-> "Short", e |-> e, delta |-> dl, neg |-> FALSE] : e \in 0..47, dl \in {-1, 0, 1}}
-  \cup {[op |-> "Time32", e |-> e, delta |-> dl, neg |-> FALSE] : e \in 0..35, dl \in {-1, 0, 1}}
+  \* wire formats: around every power of two up to the top of the format's range (2^48 resp. 2^36 units), one unit
+  \* and half a wire unit (2^15 resp. 2^3) to either side -- where rounding instead of truncating would carry
+  \cup {[op |-> "Short", e |-> e, delta |-> dl, neg |-> FALSE] : e \in 0..48, dl \in {-1, 0, 1, -32769, -32768, -32767, 32767, 32768}}
+  \cup {[op |-> "Time32", e |-> e, delta |-> dl, neg |-> FALSE] : e \in 0..36, dl \in {-1, 0, 1, -9, -8, -7, 7, 8}}
 
 Idle == [kind |-> "idle"]
 Init == st = Idle
